@@ -25,7 +25,7 @@ use emit::filter::{self, ErasedFilter};
 use emit::or::Or;
 use emit::props::ErasedProps;
 use emit::runtime::{AssertInternal, Runtime};
-use emit::{Clock, Ctxt, Emitter, Empty, Event, Filter, Props, Timestamp};
+use emit::{Clock, Ctxt, Emitter, Empty, Event, Filter, Props, Rng, Timestamp};
 
 use crate::spec::*;
 
@@ -300,6 +300,8 @@ impl Ctxt for ListCtxt {
 
 pub enum F {
     Rec(RecFilter),
+    /// a recording leaf that logs its decision into its own audit runtime (nested emission)
+    Audit(Box<AuditFilter>),
     FromFn(filter::FromFn<FilterFn>),
     FnPtr(FilterPtr),
     Empty(Empty),
@@ -337,6 +339,8 @@ impl Filter for F {
         let evt = evt.erase();
         match self {
             F::Rec(_) | F::FromFn(_) | F::FnPtr(_) | F::Empty(_) | F::Always(_) | F::MinLevel(_) | F::Kind(_) => unreachable!(),
+            // (behind the erasure: the audit runtime's trees are `E`/`F` again)
+            F::Audit(f) => f.matches(&evt),
             F::And(f) => f.matches(&evt),
             F::Or(f) => f.matches(&evt),
             F::Opt(f) => f.matches(&evt),
@@ -356,6 +360,17 @@ impl Filter for F {
     }
 }
 
+pub fn build_audit(id: u32, pred: &Pred, on: AuditOn, fwd: &FwdSpec, all_erased: bool) -> AuditFilter {
+    // clock tags of the runtimes below a filter leaf: a range of their own, fixed by the leaf's id
+    let mut tag = 10_000 + id * 64;
+    AuditFilter {
+        id,
+        pred: pred.clone(),
+        on,
+        fwd: build_fwd(fwd, all_erased, &mut tag),
+    }
+}
+
 pub fn build_f(s: &FS, all_erased: bool) -> F {
     let b = |s: &FS| build_f(s, all_erased);
     let f = match s {
@@ -363,6 +378,7 @@ pub fn build_f(s: &FS, all_erased: bool) -> F {
             id: *id,
             pred: pred.clone(),
         }),
+        FS::Audit { id, pred, on, fwd } => F::Audit(Box::new(build_audit(*id, pred, *on, fwd, all_erased))),
         FS::FromFn { id, pred } => {
             let (id, pred) = (*id, pred.clone());
             let f: FilterFn = Box::new(move |evt: Event<&dyn ErasedProps>| {
@@ -482,6 +498,8 @@ pub enum E {
     Wrap(Box<Wrap<E, W>>),
     /// a nested runtime used through its `Emitter` impl
     Rt(Box<NestedRt>),
+    /// a forwarding destination: re-emits what it receives into another runtime (nested emission)
+    Fwd(Box<Fwd>),
 }
 
 impl Emitter for E {
@@ -517,6 +535,7 @@ impl Emitter for E {
                 let r: &NestedRt = e;
                 Emitter::emit(r, &evt)
             }
+            E::Fwd(e) => e.emit(&evt),
         }
     }
 
@@ -545,6 +564,7 @@ impl Emitter for E {
                 let r: &NestedRt = e;
                 Emitter::blocking_flush(r, timeout)
             }
+            E::Fwd(e) => e.blocking_flush(timeout),
         }
     }
 }
@@ -583,6 +603,7 @@ pub fn build_e(s: &ES, all_erased: bool, nested_clock_tag: &mut u32) -> E {
             let x = build_e(x, all_erased, nested_clock_tag);
             E::Wrap(Box::new(x.wrap_emitter(w)))
         }
+        ES::Fwd(fw) => E::Fwd(Box::new(build_fwd(fw, all_erased, nested_clock_tag))),
         ES::Rt {
             emitter,
             filter,
@@ -610,6 +631,141 @@ pub fn build_e(s: &ES, all_erased: bool, nested_clock_tag: &mut u32) -> E {
 }
 
 // ---------------------------------------------------------------------------------------------
+// nested emission: a leaf that EMITS while it handles an event
+
+/// Re-emit `evt` through `rt` by the entry point `via`. This runs INSIDE the emission that handed `evt`
+/// to the calling leaf (same thread, that emission's frames still on the stack). `when` is the call-site
+/// filter; only the macro entry points can carry one.
+pub fn forward<TE: Emitter, TF: Filter, TC: Ctxt, TK: Clock, TR: Rng, TW: Filter, P: Props>(
+    rt: &Runtime<TE, TF, TC, TK, TR>,
+    when: Option<&TW>,
+    via: Via,
+    a: i64,
+    evt: &Event<P>,
+) {
+    let _ = a;
+    match via {
+        Via::Core => emit_core::emit(rt.emitter(), rt.filter(), rt.ctxt(), rt.clock(), evt),
+        Via::RtEmit => rt.emit(evt),
+        Via::RtAsEmitter => Emitter::emit(rt, evt),
+        Via::MacroEvt => match when {
+            Some(w) => emit::emit!(rt: *rt, when: w, evt: evt),
+            None => emit::emit!(rt: *rt, evt: evt),
+        },
+        Via::MacroEvtTpl => match when {
+            Some(w) => emit::emit!(rt: *rt, when: w, evt: evt, "fwd override"),
+            None => emit::emit!(rt: *rt, evt: evt, "fwd override"),
+        },
+        Via::MacroTpl(site) => {
+            let mdl = evt.mdl().by_ref();
+            let ext = evt.extent().cloned();
+            let base = evt.props();
+            match (site % VIA_TPL_SITES, when) {
+                (0, Some(w)) => emit::emit!(rt: *rt, when: w, mdl: mdl, extent: ext, props: base, "fwd plain"),
+                (0, None) => emit::emit!(rt: *rt, mdl: mdl, extent: ext, props: base, "fwd plain"),
+                (_, Some(w)) => emit::emit!(rt: *rt, when: w, mdl: mdl, extent: ext, props: base, "fwd {a}"),
+                (_, None) => emit::emit!(rt: *rt, mdl: mdl, extent: ext, props: base, "fwd {a}"),
+            }
+        }
+        Via::Level(l) => {
+            let mdl = evt.mdl().by_ref();
+            let ext = evt.extent().cloned();
+            let base = evt.props();
+            match (l % 4, when) {
+                (0, Some(w)) => emit::debug!(rt: *rt, when: w, mdl: mdl, extent: ext, props: base, "leveled"),
+                (0, None) => emit::debug!(rt: *rt, mdl: mdl, extent: ext, props: base, "leveled"),
+                (1, Some(w)) => emit::info!(rt: *rt, when: w, mdl: mdl, extent: ext, props: base, "leveled"),
+                (1, None) => emit::info!(rt: *rt, mdl: mdl, extent: ext, props: base, "leveled"),
+                (2, Some(w)) => emit::warn!(rt: *rt, when: w, mdl: mdl, extent: ext, props: base, "leveled"),
+                (2, None) => emit::warn!(rt: *rt, mdl: mdl, extent: ext, props: base, "leveled"),
+                (_, Some(w)) => emit::error!(rt: *rt, when: w, mdl: mdl, extent: ext, props: base, "leveled"),
+                (_, None) => emit::error!(rt: *rt, mdl: mdl, extent: ext, props: base, "leveled"),
+            }
+        }
+    }
+}
+
+/// A destination that tees into another pipeline, the way user code would write it: the target of the
+/// nested emission is a runtime of its own (destination, filter, list-backed ctxt, clock); `via` is the
+/// entry point, `when` the optional call-site filter. Generic, so `statics.rs` instantiates it at plain
+/// leaves while the dynamic trees use it at the recursive enums (`Fwd`).
+pub struct Tee<TE, TF, TW> {
+    pub rt: Runtime<TE, TF, ListCtxt, K, Empty>,
+    pub when: Option<TW>,
+    pub via: Via,
+    pub a: i64,
+}
+
+pub type Fwd = Tee<E, F, F>;
+
+impl<TE: Emitter, TF: Filter, TW: Filter> Tee<TE, TF, TW> {
+    pub fn forward<P: Props>(&self, evt: &Event<P>) {
+        forward(&self.rt, self.when.as_ref(), self.via, self.a, evt)
+    }
+}
+
+impl<TE: Emitter, TF: Filter, TW: Filter> Emitter for Tee<TE, TF, TW> {
+    fn emit<T: ToEvent>(&self, evt: T) {
+        let evt = evt.to_event();
+        self.forward(&evt)
+    }
+
+    /// a tee flushes what it tees into
+    fn blocking_flush(&self, timeout: Duration) -> bool {
+        self.rt.emitter().blocking_flush(timeout)
+    }
+}
+
+/// A filter leaf that logs its decision: the verdict is its predicate's; when `on` fires for it, the event
+/// is first emitted into the leaf's audit runtime.
+pub struct Audit<TE, TF, TW> {
+    pub id: u32,
+    pub pred: Pred,
+    pub on: AuditOn,
+    pub fwd: Tee<TE, TF, TW>,
+}
+
+pub type AuditFilter = Audit<E, F, F>;
+
+impl<TE: Emitter, TF: Filter, TW: Filter> Filter for Audit<TE, TF, TW> {
+    fn matches<T: ToEvent>(&self, evt: T) -> bool {
+        let evt = evt.to_event();
+        let verdict = eval_pred(&self.pred, &evt);
+        log(Rec::FilterSaw {
+            id: self.id,
+            snap: snap(&evt),
+            verdict,
+        });
+        if self.on.fires(verdict) {
+            self.fwd.forward(&evt);
+        }
+        verdict
+    }
+}
+
+pub fn build_fwd(fw: &FwdSpec, all_erased: bool, nested_clock_tag: &mut u32) -> Fwd {
+    *nested_clock_tag += 1;
+    let tag = *nested_clock_tag;
+    let when = if fw.via.is_macro() {
+        fw.when.as_ref().map(|w| build_f(w, all_erased))
+    } else {
+        None
+    };
+    let f = build_f(&fw.filter, all_erased);
+    let e = build_e(&fw.emitter, all_erased, nested_clock_tag);
+    Fwd {
+        rt: Runtime::new()
+            .with_emitter(e)
+            .with_filter(f)
+            .with_ctxt(ListCtxt::new(&fw.ctxt))
+            .with_clock(K::new(tag, fw.clock)),
+        when,
+        via: fw.via,
+        a: fw.a,
+    }
+}
+
+// ---------------------------------------------------------------------------------------------
 // roots: the top node of a tree is NOT preceded by an erasure, so a root leaf, the operands of a root
 // `And`/`Or`, the filter of a root `Wrap(from_filter)` and the filter/emitter of a root nested runtime
 // are handed the props generically — `And<own, ambient>` exactly as `emit_core::emit` builds them.
@@ -617,6 +773,7 @@ pub fn build_e(s: &ES, all_erased: bool, nested_clock_tag: &mut u32) -> E {
 
 pub enum FH {
     Plain(F),
+    Audit(AuditFilter),
     And(And<F, F>),
     Or(Or<F, F>),
 }
@@ -625,6 +782,7 @@ impl Filter for FH {
     fn matches<E: ToEvent>(&self, evt: E) -> bool {
         match self {
             FH::Plain(f) => f.matches(evt),
+            FH::Audit(f) => f.matches(evt),
             FH::And(f) => f.matches(evt),
             FH::Or(f) => f.matches(evt),
         }
@@ -638,6 +796,7 @@ pub fn build_fh(s: &FS, all_erased: bool) -> FH {
     match s {
         FS::And(x, y) => FH::And(build_f(x, false).and_when(build_f(y, false))),
         FS::Or(x, y) => FH::Or(build_f(x, false).or_when(build_f(y, false))),
+        FS::Audit { id, pred, on, fwd } => FH::Audit(build_audit(*id, pred, *on, fwd, false)),
         s => FH::Plain(build_f(s, false)),
     }
 }
@@ -647,6 +806,7 @@ pub enum EH {
     And(And<E, E>),
     WrapFilter(Wrap<E, wrapping::FromFilter<F>>),
     Rt(NestedRt),
+    Fwd(Fwd),
 }
 
 impl Emitter for EH {
@@ -656,6 +816,7 @@ impl Emitter for EH {
             EH::And(e) => e.emit(evt),
             EH::WrapFilter(e) => e.emit(evt),
             EH::Rt(e) => Emitter::emit(e, evt),
+            EH::Fwd(e) => e.emit(evt),
         }
     }
 
@@ -665,6 +826,7 @@ impl Emitter for EH {
             EH::And(e) => e.blocking_flush(timeout),
             EH::WrapFilter(e) => e.blocking_flush(timeout),
             EH::Rt(e) => Emitter::blocking_flush(e, timeout),
+            EH::Fwd(e) => e.blocking_flush(timeout),
         }
     }
 }
@@ -702,6 +864,7 @@ pub fn build_eh(s: &ES, all_erased: bool, nested_clock_tag: &mut u32) -> EH {
                     .with_clock(K::new(tag, *clock)),
             )
         }
+        ES::Fwd(fw) => EH::Fwd(build_fwd(fw, false, nested_clock_tag)),
         s => EH::Plain(build_e(s, false, nested_clock_tag)),
     }
 }
